@@ -388,6 +388,41 @@ pub fn c05(tier: &str, seed: u64) {
         }
       }
     }
+    // faults at TWO places of one field with one mask (offsets 8, 16, 32 apart and adjacent): what a
+    // word-wise or folded comparison cancels out - the authentication tag above all
+    for (fname, range) in &fields {
+      if range.len() < 16 {
+        continue;
+      }
+      for _ in 0..(if *fname == "tag" { 12 } else { 3 }) {
+        let dist = *g.pick(&[1usize, 8, 16, 32]);
+        if range.len() <= dist {
+          continue;
+        }
+        let o1 = range.start + g.below((range.len() - dist) as u64) as usize;
+        let mask = *g.pick(&[0x01u8, 0x80, 0xff, 0x10]);
+        let mut bs = shares.clone();
+        bs[0][o1] ^= mask;
+        bs[0][o1 + dist] ^= mask;
+        let parsed: Option<Vec<AShare>> = bs.iter().map(|b| AShare::from_bytes(b)).collect();
+        let Some(p) = parsed else { continue };
+        let res = std::panic::catch_unwind(std::panic::AssertUnwindSafe(|| recover(&p).map(|c| c.get_message()).map_err(|_| ())));
+        let d = vec![("field", fname.to_string()), ("two_faults", format!("offsets {} and {} of the share, mask {:02x}", o1, o1 + dist, mask)), ("share_position", "0".into()), ("threshold", t.to_string()), ("shares", hexlist(&bs)), ("original_message", hex(&m))];
+        match res {
+          Err(_) => fail("recover_panicked", &d),
+          Ok(Ok(got)) => {
+            if got != m {
+              fail("recovered_other_message", &d);
+            } else if !(t == 1 && *fname == "share_point") {
+              fail("altered_first_share_accepted", &d);
+            }
+          }
+          Ok(Err(())) => {}
+        }
+        case(true);
+        stat("oracle.C05.double_faults");
+      }
+    }
     // a whole FIELD of one share replaced by a distinguished value (all zero: the field element 0 for
     // the share point / value; all 0xff where that still decodes), in every share position
     for pos in 0..cnt {
